@@ -23,7 +23,8 @@ def _install_unit_vector_stub(H):
 
 
 OPS = ['getitem', 'setitem', 'delitem', 'insert', 'pop', 'pop_default', 'append', 'extend', 'add', 'radd', 'mul', 'copy', 'slice', 'getitem_pub', 'setitem_pub',
-       'count', 'contains', 'find', 'index', 'remove', 'sort', 'sort_rev', 'lt', 'le', 'eq', 'ne', 'gt', 'ge', 'getitem_secindex', 'setitem_vector', 'iadd', 'secindex_add']
+       'count', 'contains', 'find', 'index', 'remove', 'sort', 'sort_rev', 'lt', 'le', 'eq', 'ne', 'gt', 'ge', 'getitem_secindex', 'setitem_vector', 'iadd', 'secindex_add',
+       'getitem_vector', 'delitem_vector', 'pop_vector', 'insert_vector', 'delitem_secindex', 'pop_secindex', 'insert_secindex', 'setitem_secindex']
 
 
 def inst_seclist(H, l, n, op, n2=None):
@@ -35,8 +36,9 @@ def inst_seclist(H, l, n, op, n2=None):
     lo, hi = -2, 3
     If = z3.If
     n2 = n if n2 is None else n2
-    needs_index = op in ('getitem', 'setitem', 'delitem', 'insert', 'pop', 'getitem_secindex', 'setitem_vector')
-    idx_hi = n + 1 if op == 'insert' else n
+    base = op.split('_')[0] if op.endswith(('_vector', '_secindex')) else op
+    needs_index = base in ('getitem', 'setitem', 'delitem', 'insert', 'pop')
+    idx_hi = n + 1 if base == 'insert' else n
 
     def build():
         xs = [H.secret(secint, f'x{i}', lo, hi) for i in range(n)]
@@ -46,7 +48,7 @@ def inst_seclist(H, l, n, op, n2=None):
         res = None
         if needs_index:
             i, iv = H.secret(secint, 'i', 0, idx_hi); info['i'] = iv
-        if op in ('setitem', 'insert', 'append', 'setitem_pub', 'count', 'contains', 'find', 'index', 'remove', 'setitem_vector'):
+        if base in ('setitem', 'insert') or op in ('append', 'setitem_pub', 'count', 'contains', 'find', 'index', 'remove', 'setitem_vector'):
             w, wv = H.secret(secint, 'w', lo, hi); info['w'] = wv
         if op in ('extend', 'add', 'radd', 'lt', 'le', 'eq', 'ne', 'gt', 'ge', 'iadd'):
             ys = [H.secret(secint, f'y{i}', lo, hi) for i in range(n2)]; info['ys'] = [v for _, v in ys]
@@ -81,10 +83,21 @@ def inst_seclist(H, l, n, op, n2=None):
         elif op == 'sort_rev': L.sort(reverse=True)
         elif op in ('lt', 'le', 'eq', 'ne', 'gt', 'ge'):
             res = {'lt': L < Y, 'le': L <= Y, 'eq': L == Y, 'ne': L != Y, 'gt': L > Y, 'ge': L >= Y}[op]
-        elif op == 'getitem_secindex':
-            u = mpc.unit_vector(i, n); res = L[secindex(u)]
-        elif op == 'setitem_vector':
-            u = mpc.unit_vector(i, n); L[u] = w
+        elif op.endswith(('_vector', '_secindex')):
+            # key given as a unit vector / secindex: besides the view, the caller's key object must be left as it was (frame condition;
+            # the same key is used again in any longer history, e.g. deleting one secret position from two parallel lists)
+            u = mpc.unit_vector(i, idx_hi); key = secindex(u) if op.endswith('_secindex') else u
+            before = list(u), (list(key.value), key.offset) if op.endswith('_secindex') else None
+            if base == 'getitem': res = L[key]
+            elif base == 'setitem': L[key] = w
+            elif base == 'delitem': del L[key]
+            elif base == 'pop': res = L.pop(key)
+            elif base == 'insert': L.insert(key, w)
+            after = list(u), (list(key.value), key.offset) if op.endswith('_secindex') else None
+            def _same_objs(a, b): return len(a) == len(b) and all(x is y for x, y in zip(a, b))
+            if not _same_objs(before[0], after[0]) or (before[1] and not (_same_objs(before[1][0], after[1][0]) and before[1][1] == after[1][1])):
+                raise GhostViolation('frame:key-unchanged', f'{op}: the secret index object passed by the caller was modified in place '
+                                     f'(length {len(before[0])} -> {len(after[0])}); a later use of the same index in the history gives a wrong result')
         elif op == 'secindex_add':
             a, av = H.secret(secint, 'a', 0, 2); b, bv = H.secret(secint, 'b', 0, 2); info['ab'] = (av, bv)
             k = secindex(mpc.unit_vector(a, 2)) + secindex(mpc.unit_vector(b, 2))
@@ -110,11 +123,11 @@ def inst_seclist(H, l, n, op, n2=None):
             for i0 in range(idx_hi):
                 c = i == i0
                 pv = list(v)
-                if op in ('getitem', 'getitem_secindex'): g += same(pv, f'i={i0}', c) + [(f'{op}:i={i0}-result', z3.Implies(c, eq(res, pv[i0])))]
-                elif op in ('setitem', 'setitem_vector'): pv[i0] = w; g += same(pv, f'i={i0}', c)
-                elif op == 'delitem': del pv[i0]; g += same(pv, f'i={i0}', c)
-                elif op == 'insert': pv.insert(i0, w); g += same(pv, f'i={i0}', c)
-                elif op == 'pop': r = pv.pop(i0); g += same(pv, f'i={i0}', c) + [(f'{op}:i={i0}-result', z3.Implies(c, eq(res, r)))]
+                if base == 'getitem': g += same(pv, f'i={i0}', c) + [(f'{op}:i={i0}-result', z3.Implies(c, eq(res, pv[i0])))]
+                elif base == 'setitem': pv[i0] = w; g += same(pv, f'i={i0}', c)
+                elif base == 'delitem': del pv[i0]; g += same(pv, f'i={i0}', c)
+                elif base == 'insert': pv.insert(i0, w); g += same(pv, f'i={i0}', c)
+                elif base == 'pop': r = pv.pop(i0); g += same(pv, f'i={i0}', c) + [(f'{op}:i={i0}-result', z3.Implies(c, eq(res, r)))]
             return g
         pv = list(v)
         if op == 'pop_default': r = pv.pop(); return same(pv, 'list') + [('pop-result', eq(res, r))]
